@@ -129,10 +129,10 @@ fn concurrent_describe_case(r: &mut Prng) -> Case {
     c
 }
 
-fn seeded_case(r: &mut Prng) -> Case {
+fn seeded_case(r: &mut Prng, big: bool) -> Case {
     let mut c = Case::new("seeded");
     c.slots.push(CtxSpec::empty());
-    let n = 2 + r.usize(10);
+    let n = 2 + r.usize(if big { 24 } else { 10 });
     let mut next_id = 1;
     let mut progs: Vec<Prog> = vec![all_kinds_program()];
     // a few generated programs (no observable nodes; names drawn from the descriptor name pool where possible)
@@ -241,7 +241,7 @@ impl Prop for C18 {
         singles().len() as u64 + 30000 * tier.scale()
     }
 
-    fn run_index(&self, idx: u64, seed: u64, _tier: Tier, rt: &mut Rt) -> Vec<Violation> {
+    fn run_index(&self, idx: u64, seed: u64, tier: Tier, rt: &mut Rt) -> Vec<Violation> {
         let s = singles();
         let case = if (idx as usize) < s.len() {
             rt.probe("single_registrations_run");
@@ -280,7 +280,7 @@ impl Prop for C18 {
                 }
                 return vec![];
             }
-            seeded_case(&mut r)
+            seeded_case(&mut r, tier == Tier::Thorough)
         };
         let case = Arc::new(case);
         rt.case_seen(case.fingerprint());
